@@ -180,9 +180,17 @@ def run(tier='quick', seed=0):
         for it in range(60 if tier == 'quick' else 800):
             evals += 1
             eqs = [(rng.choice(terms), rng.choice(terms)) for _ in range(rng.randint(1, 4))]
+            if rng.random() < 0.4:
+                # the same pair merged again the other way round (with or without a supplied proof term)
+                u0, v0 = eqs[0]
+                eqs.append((v0, u0))
             hol = congc.CongClosureHOL()
+            from kernel.proofterm import ProofTerm as _PT
             for s, t in eqs:
-                hol.merge(s, t)
+                if rng.random() < 0.5 and s != t:
+                    hol.merge(s, t, pt=_PT.assume(Eq(s, t)))       # a supplied proof of exactly s = t
+                else:
+                    hol.merge(s, t)
             for _ in range(4):
                 s, t = rng.choice(terms), rng.choice(terms)
                 if hol.test(s, t) and s != t:
